@@ -513,11 +513,17 @@ Definition substitute_gen (defer : bool) (c : circ) (node : nat) (impl : circ) :
   end.
 Definition substitute := substitute_gen true.
 
-(** resolve_tlib_cells (circuit.py:441-448): tlib = kind -> implementation *)
+(** resolve_tlib_cells (circuit.py:445-453): tlib = kind -> implementation.  The loop runs over a snapshot of the node list;
+    `n.circuit is not None` ([n_alive]) skips an instance that the clean-up of an earlier substitution has removed.
+    [resolve_one_old] / [resolve_tlib_old] is the code before commit 11c77ac (no such test), kept only as the subject of the
+    refutation witness in Proofs/CircuitResolve.v. *)
 Fixpoint tlib_get (k : string) (t : list (string * circ)) : option circ :=
   match t with [] => None | (k', v) :: r => if String.eqb k k' then Some v else tlib_get k r end.
-Definition resolve_one (t : list (string * circ)) (c : circ) (n : nat) : option circ :=
+Definition resolve_one_old (t : list (string * circ)) (c : circ) (n : nat) : option circ :=
   match tlib_get (kind_of c n) t with Some impl => substitute c n impl | None => Some c end.
+Definition resolve_one (t : list (string * circ)) (c : circ) (n : nat) : option circ :=
+  if n_alive (nst c n) then resolve_one_old t c n else Some c.
+Definition resolve_tlib_old (c : circ) (t : list (string * circ)) : option circ := fold_opt (resolve_one_old t) (nodes c) c.
 Definition resolve_tlib (c : circ) (t : list (string * circ)) : option circ := fold_opt (resolve_one t) (nodes c) c.
 
 (** ** stats (circuit.py:309-332) *)
